@@ -224,17 +224,18 @@ class ClosureCells:
     def cells(self):
         return sorted({c for _, c in self.set_stores()})
 
-    def set_edges(self, cell):
+    def set_edges(self, cell, values=None):
         """edges of the creating function taken when the cell is raised (true / Some / the variant the closure
-        stores), and when it is not"""
+        stores), and when it is not. `values`: only these stored values count as 'raised' (an enum-valued cell that
+        records one of several outcomes)"""
         b = self.parent
-        values = {v for i, c, v in self.set_stores_valued() if c == cell}
+        values = {v for i, c, v in self.set_stores_valued() if c == cell} if values is None else set(values)
         yes, no = [], []
         for sw, blk in enumerate(b.blocks):
             t = blk["term"]
             if t["t"] != "switch" or b.is_cleanup(sw):
                 continue
-            e = b.expr(t["on"])
+            e = b.expr(t["on"], at=sw)
             neg = False
             while e[0] == "not":
                 neg = not neg
@@ -427,7 +428,7 @@ def value_test_edges(body, call_bb, value):
         return any(r == ("call", call_bb) and all(x in (".branch", " as Continue", ".0", " as Ok", "&", "*", ".unwrap") for x in p) for r, p in body.resolve(op))
 
     for sw in T.switches_on_expr(body, lambda e: e[0] == "discr"):
-        e = body.expr(body.blocks[sw]["term"]["on"])
+        e = body.expr(body.blocks[sw]["term"]["on"], at=sw)
         if is_result({"c": e[2]}) and any(" as Continue" in p or " as Ok" in p or ".unwrap" in p for r, p in body.resolve(e[2])):
             yes += T.discr_edges(body, sw, value[2])
     # a derived `==` that was inlined: Eq(discriminant_value(&result), discriminant_value(&Enum::Variant))
